@@ -200,6 +200,19 @@ def run_case(spec, rec):
                                     "call %d (seed=%r) gives different outcomes when fresh heap memory is filled with 0xbe vs 0x5a: "
                                     "%r vs %r" % (i, c["seed"], r1, r2))
             rec.add("fill_differential_sequences")
+    # "later calls are unaffected by earlier ones": the same seeded call repeated inside one sequence (one process)
+    # must give the same results every time
+    from .common import jdumps
+    first_digest = {}
+    for i, (c, r) in enumerate(zip(calls, results)):
+        if c["seed"] is None or not (r and "ok" in r):
+            continue
+        key = jdumps(c, sort_keys=True)
+        if key in first_digest and first_digest[key][1] != r["ok"]:
+            raise Violation("later_call_affected_by_earlier/same_seeded_call_differs/%s" % c["func"],
+                            "calls %d and %d of the sequence are identical (seed=%r) but their results differ" % (
+                                first_digest[key][0], i, c["seed"]))
+        first_digest.setdefault(key, (i, r["ok"]))
     for i, r in enumerate(results):
         if r is None or "ok" in r:
             continue
@@ -324,9 +337,25 @@ def huge_cases(tier):
 size_cases = ag.size_cases
 
 
+def repeat_cases(tier):
+    """The same seeded call twice in one sequence: 10^5 spins visited in random order (so that the generator's rarely
+    taken paths - rejection in the bounded draw has probability ~1e-5 per draw - are certain to be taken), through both
+    kernels, and a small model as a control."""
+    def chain(func, kind, n, seed):
+        terms = [[(i, i + 1), 1 if i % 2 else -2] for i in range(n - 1)] + [[(0,), 0.5]]
+        return {"func": func, "kind": kind, "labels": list(range(n)), "terms": terms, "stale": [],
+                "num_anneals": 1, "anneal_duration": 2, "schedule": ("explicit", [1.0, 0.5]), "temperature_range": None,
+                "init": None, "in_order": False, "seed": seed}
+    for func, kind in (("anneal_quso", "QUSOMatrix"), ("anneal_puso", "PUSOMatrix")):
+        big = chain(func, kind, 100000, 5)
+        small = chain(func, kind, 7, 9)
+        yield {"calls": [small, big, small, big]}
+
+
 def subchecks(tier):
     return [Sub("sequence", sequence(), run_case, quick=3600, thorough=80000),
             Sub("sizes", None, run_case, quick=0, thorough=0, enumerate=size_cases),
+            Sub("repeat", None, run_case, quick=0, thorough=0, enumerate=repeat_cases, max_shards=2),
             # expensive (tens of seconds per case under ASan): a handful of cases only
             Sub("huge", None, run_case, quick=0, thorough=0, enumerate=huge_cases, max_shards=6)]
 
